@@ -214,6 +214,19 @@ Definition conc_return_once_ok (i : cscenario) (o : cobs) : bool :=
                     | CRErr er => ekind_eqb (e_kind er) EMsg
                     | _ => true end) (co_events o) && co_parse_ok o.
 
+(* ---------- C12: after close no further heartbeats ---------- *)
+Fixpoint no_hb_after_close (seen_close : bool) (w : list wfr) : bool :=
+  match w with
+  | [] => true
+  | f :: r =>
+    if oname_eqb (wf_name f) WConnClose then no_hb_after_close true r
+    else if oname_eqb (wf_name f) (WRequest 98) then negb seen_close && no_hb_after_close seen_close r
+    else no_hb_after_close seen_close r
+  end.
+Definition conc_hb_close_ok (i : cscenario) (o : cobs) : bool :=
+  no_hb_after_close false (co_wire o) && co_parse_ok o &&
+  forallb (fun e => completed (ce_res e)) (co_events o).
+
 (* ---------- C01: frames on the wire ---------- *)
 (* per channel: Publish, Header n, bodies adding up to n - with nothing of that channel in between *)
 Fixpoint wire_chan_ok (fuel : nat) (l : list wfr) : bool :=
